@@ -224,6 +224,14 @@ theorem call_member_key_display (x : Ids.Ext) (s : Str) (h : Ids.utf8Valid s = t
     {k : ScanCallMember.Key} (hk : ScanCallMember.fromStr x s = .ok k) : k.display = s :=
   ScanCallMember.fromStr_display x s (Ids.sep_of_utf8Valid s h) hk
 
+/-- Non-vacuity: the three accepted forms (with C10's reference parsers standing in for the external
+IP-literal parsers). -/
+example : ScanCallMember.fromStr ⟨fun _ => false, fun _ => false, fun _ => true⟩ (bs "_@a:h_DEV") =
+    .ok (.underscoreUserDevice (bs "@a:h") (bs "DEV")) := by decide
+example : ScanCallMember.fromStr ⟨fun _ => false, fun _ => false, fun _ => true⟩ (bs "@a:h") =
+    .ok (.user (bs "@a:h")) := by decide
+example : ScanCallMember.fromStr ⟨fun _ => false, fun _ => false, fun _ => true⟩ (bs "_@a:h") = .err := by decide
+
 /-! ## `<code class="language-…">` -/
 
 /-- **The `language-` scan of `CodeData::parse` returns for every attribute value**: the byte before a
@@ -285,6 +293,8 @@ theorem char_at_returns (s : Str) (hs : Ids.utf8Valid s = true) (i : Nat)
     (hb : Ids.isBoundary s i = true) (hi : i < s.length) : ∃ cs, ScanWordBytes.charAt s i = .ok cs :=
   ScanWordBytes.charAt_ok hs hb hi
 
+example : ScanWordBytes.charAt [97, 0xc3, 0xa9, 98] 1 = .ok [0xc3, 0xa9] := by decide
+
 /-- `char_len(index)` with `index = len` does not terminate (the site the callers must and do avoid:
 `word_boundary_end` tests `end == self.len()` first). -/
 example : ScanWordBytes.charLen (bs "ab") 2 = .hang := by decide
@@ -331,6 +341,8 @@ theorem cd_parse_error_iff_token (s : Str) :
   ScanCd.parse_error_iff_token s
 
 example : ScanCd.typeToken (bs "  form-data ; name=x") = bs "form-data" := by decide
+
+example : ScanMultipart.parsePart (bs "--B \r\nA: b\r\n\r\nfile") 3 18 = .ok (bs "A: b\r\n", bs "file") := by decide
 
 /-! ## Push rule evaluation (C12's code-point model) -/
 
